@@ -309,6 +309,8 @@ class OpsMixin:
         if name == "__dict__":
             return [(st, BoundMethod(ref, "__dict__"))]
         cls = h.cls if inspect.isclass(h.cls) else None
+        if cls is not None and f"{cls.__name__}.{name}" in self.specs:
+            return [(st, BoundMethod(ref, name))]
         if name in h.lazy:
             v = self.make_lazy(st, ref, h, name, h.lazy[name])
             h.fields[name] = v
@@ -622,6 +624,27 @@ class OpsMixin:
                 res.append((s, None))
             else:
                 raise CheckerError(f"{c.kind} escaped function {clo.qualname}")
+        return res
+
+    def run_body(self, st, clo, local):
+        """Execute the body of a function with explicitly given parameter bindings (used when
+        *args / **kwargs themselves are symbolic)."""
+        fnode = clo.node
+        fid = st.new_frame(dict(local))
+        fr = Frame(fid, list(clo.cells), clo.module, clo.qualname, set(), fn_node=fnode)
+        self.depth = getattr(self, "depth", 0) + 1
+        try:
+            outs = self.exec_block(fnode.body, st, fr)
+        finally:
+            self.depth -= 1
+        res = []
+        for s, c in outs:
+            if c.kind == "raise":
+                res.append((s, Raised(c.value)))
+            elif c.kind == "return":
+                res.append((s, c.value))
+            else:
+                res.append((s, None))
         return res
 
     def is_generator(self, fnode):
